@@ -26,6 +26,9 @@ from hpfeeds.broker.server import Server
 # ------------------------------------------------------------------------------------------------
 # simulated transport: asyncio's selector-transport contract, adversarial about the closing window
 # ------------------------------------------------------------------------------------------------
+ASPECTS = 'DWFRGAB'
+
+
 class SimTransport:
     def __init__(self, q):
         self.q = q
@@ -266,6 +269,7 @@ class Driver:
             self._idle(rec, 0)
         rec['loop_errors'] = len(self.loop.errors)
         rec['state'] = self.show_state()
+        rec['asp'] = self.aspects()
         rec['snap'] = self.snapshot()
         self.trace.append(rec)
         return rec
@@ -328,11 +332,36 @@ class Driver:
             c, t = self.conns[q]
             snap[q] = dict(nframes=len(self.frames_of(q)), closing=t.closing, lost=t.lost, aborted=t.aborted,
                            rpaused=t.rpaused, open=c in self.server.connections, ak=c.ak,
-                           active=sorted(c.active_subscriptions))
+                           active=sorted(c.active_subscriptions),
+                           registered=sorted(ch for ch, lst in self.server.subscriptions.items() if any(x is c for x in lst)),
+                           closed_at=t.closed_at)
         return snap
 
     def show_outs(self):
         return ['%d=[%s]' % (q, ','.join(show_wframe(o, b) for o, b in self.frames_of(q))) for q in self.order]
+
+    def aspects(self):
+        """the seven aspect strings of coq/BrokerRun.v (D W F R G A B), set-like parts hashed commutatively"""
+        def per(f):
+            return ' '.join('%d:%s' % (q, f(q, *self.conns[q])) for q in self.order)
+        frames = {q: self.frames_of(q) for q in self.order}
+        D = per(lambda q, c, t: ','.join(show_wframe(o, b) for o, b in frames[q] if o == P.OP_PUBLISH))
+        W = per(lambda q, c, t: ','.join(show_wframe(o, b) for o, b in frames[q]))
+        F = per(lambda q, c, t: '%d%d' % (t.closing, c in self.server.connections))
+        idx = {id(c): q for q, (c, t) in self.conns.items()}
+        reg = []
+        for chan, lst in self.server.subscriptions.items():
+            if lst:
+                reg.append('%s=%d' % (fp(chan.encode('utf-8')), hmembers([idx.get(id(x), 10 ** 6) for x in lst])))
+        R = per(lambda q, c, t: '{%d}' % hset(fp(x.encode('utf-8')) for x in c.active_subscriptions)) + '|R{%d}' % hset(reg)
+        subs = ['%s/%s=%d' % (fp(l['ident'].encode('utf-8')), fp(l['chan'].encode('utf-8')), int(v))
+                for n, l, v in samples(prometheus.SUBSCRIPTIONS)]
+        lost = sum(int(v) for n, l, v in samples(prometheus.CONNECTION_LOST) if not n.endswith('_created'))
+        G = '%d,%d,%d,{%d}' % (int(prometheus.CLIENT_CONNECTIONS._value.get()), int(prometheus.CONNECTION_MADE._value.get()),
+                               lost, hset(subs))
+        A = per(lambda q, c, t: '-' if c.ak is None else fp(c.ak.encode('utf-8')))
+        B = per(lambda q, c, t: '%d:%d:%d' % (t.rpaused, len(self.store.pending.get(q) or []), len(c.unpacker.buf)))
+        return [D, W, F, R, G, A, B]
 
     def run(self):
         try:
@@ -346,9 +375,26 @@ class Driver:
 
 
 def drive(case):
+    """-> (per-event list of 7 aspect fingerprints, driver)"""
     d = Driver(case)
-    obs = d.run()
-    return canon(obs), d
+    d.run()
+    return [[_ad(x) for x in r['asp']] for r in d.trace], d
+
+
+def reshape(flat):
+    """the model prints 7 numbers per event in one flat list"""
+    return [flat[i:i + 7] for i in range(0, len(flat), 7)]
+
+
+def first_diff(impl, model, aspects=ASPECTS):
+    """-> (event index, aspect letter) of the first difference within the chosen aspects, or None"""
+    if len(impl) != len(model):
+        return (min(len(impl), len(model)), '#')
+    for k, (a, b) in enumerate(zip(impl, model)):
+        for j, letter in enumerate(ASPECTS):
+            if letter in aspects and a[j] != b[j]:
+                return (k, letter)
+    return None
 
 
 # canonical form: order inside {...} is immaterial (sets / dict order); registry member lists sorted
@@ -374,25 +420,14 @@ def _ad(x):
     return zlib.adler32(x.encode('latin-1')) & 0xffffffff
 
 
-def hash_line(line):
-    """order-insensitive fingerprint of one observation line — mirrors coq/BrokerRun.v hstate"""
-    def fix(m):
-        items = [x for x in m.group(1).split(';') if x]
-        acc = 0
-        for it in items:
-            if re.match(r'^[0-9.]+=[-0-9,]*$', it):
-                k, v = it.split('=')
-                h = sum((int(z) + 1) * (int(z) + 1) * 2654435761 for z in v.split(',') if z) & 0xffffffff
-                it = '%s=%d' % (k, h)
-            acc += _ad(it)
-        return '{%d}' % (acc & 0xffffffff)
-    return _ad(re.sub(r'\{([^{}]*)\}', fix, line))
+def hset(items):
+    return sum(_ad(x) for x in items) & 0xffffffff
 
 
-def hash_obs(obs):
-    """obs: list of state lines, '$', per-connection output lines -> list of ints (as run_broker prints)"""
-    k = obs.index('$')
-    return [hash_line(x) for x in obs[:k]] + [_ad(x) for x in obs[k + 1:]]
+def hmembers(lst):
+    return sum((q + 1) * (q + 1) * 2654435761 for q in lst) & 0xffffffff
+
+
 
 
 # ------------------------------------------------------------------------------------------------
@@ -573,7 +608,30 @@ class Script:
 
     def add_junk(self):
         rng = self.rng
-        k = rng.choice(['err', 'info', 'badop', 'toobig', 'small', 'neg', 'emptybody', 'badutf', 'trunc', 'random', 'reauth'])
+        k = rng.choice(['err', 'info', 'badop', 'toobig', 'small', 'neg', 'emptybody', 'badutf', 'trunc', 'random', 'reauth',
+                        'impersonate', 'impersonate'])
+        if k == 'impersonate':
+            # a failed AUTH naming another existing identity, immediately followed (same chunk, usually) by requests
+            # in that identity's name on channels of the connection's own and of the victim's lists
+            me = self.ident if self.ident is not None else rng.choice(self.known())
+            others = [i for i in self.known() if i != me] or [me]
+            victim = rng.choice(others)
+            vrow = self.table[victim]
+            mrow = self.table.get(me) or ('', [], [])
+            dg = digest(self.nonce, vrow[0] + rng.choice(['x', '']))[:rng.choice([20, 20, 19])]
+            if dg == digest(self.nonce, vrow[0]):
+                dg = dg[:19] + bytes([dg[19] ^ 1])
+            burst = auth_frame(victim, dg)
+            for _ in range(rng.randint(1, 3)):
+                kind = rng.random()
+                chans = (mrow[1] or []) + (vrow[1] or []) + (vrow[2] or []) + ['x']
+                c = rng.choice(chans)
+                if kind < 0.6:
+                    burst += P.msgpublish(victim, c, gen_payload(rng))
+                else:
+                    burst += P.msgsubscribe(victim, c)
+            self.frames.append(('junk-impersonate', burst))
+            return
         if k == 'err':
             f = P.msgerror('boo')
         elif k == 'info':
@@ -604,7 +662,7 @@ class Script:
         return b''.join(f for _, f in self.frames)
 
 
-def gen_history(rng, nconn=None, async_=False, profile='mixed', table=None, nops=None, faults=None):
+def gen_history(rng, nconn=None, async_=False, profile='mixed', table=None, nops=None, faults=None, chunking=None):
     """-> case dict and per-connection scripts.
     profile: 'benign' (only valid traffic, no faults), 'mixed' (mostly valid, some adversarial connections and
     faults), 'hostile' (mostly adversarial)."""
@@ -634,7 +692,7 @@ def gen_history(rng, nconn=None, async_=False, profile='mixed', table=None, nops
     queues = []
     for sc in scripts:
         data = sc.stream()
-        mode = rng.choice(['one', 'frames', 'frames', 'rand', 'rand', 'header', 'two', 'bytes' if len(data) < 120 else 'rand'])
+        mode = chunking or rng.choice(['one', 'frames', 'frames', 'rand', 'rand', 'header', 'two', 'bytes' if len(data) < 120 else 'rand'])
         if mode == 'frames':
             chunks = [f for _, f in sc.frames]
         else:
